@@ -221,9 +221,18 @@ fn svd_from_vectors<const D: usize>(
 }
 
 pub fn iso3_from_basis(basis: &[SVector<f64, 3>; 3], origin: &Point<f64, 3>) -> Iso3 {
-    let b0 = basis[0].normalize();
-    let b1 = basis[1].normalize();
-    let b2 = b0.cross(&b1).normalize();
+    // A NaN column makes the rotation extraction below iterate forever, so degenerate input has
+    // to be rejected here
+    let b0 = basis[0]
+        .try_normalize(1e-10)
+        .expect("iso3_from_basis: the first basis vector is zero");
+    let b1 = basis[1]
+        .try_normalize(1e-10)
+        .expect("iso3_from_basis: the second basis vector is zero");
+    let b2 = b0
+        .cross(&b1)
+        .try_normalize(1e-10)
+        .expect("iso3_from_basis: the first two basis vectors are parallel");
     let rot_m = Matrix3::from_columns(&[b0, b1, b2]);
     let r = UnitQuaternion::from_matrix(&rot_m);
     let t = Translation3::from(origin.coords);
@@ -251,7 +260,10 @@ pub fn iso3_from_basis(basis: &[SVector<f64, 3>; 3], origin: &Point<f64, 3>) -> 
 /// ```
 pub fn iso3_from_xyo(x0: &UnitVec3, y: &UnitVec3, origin: &Point<f64, 3>) -> Iso3 {
     // Project y onto x and then normalize to ensure it is a unit vector and orthogonal
-    let y0 = Unit::new_normalize(y.into_inner() - x0.into_inner() * x0.dot(y));
+    // A NaN column makes the rotation extraction below iterate forever, so parallel input has to
+    // be rejected here
+    let y0 = Unit::try_new(y.into_inner() - x0.into_inner() * x0.dot(y), 1e-10)
+        .expect("iso3_from_xyo: x0 and y are parallel");
 
     let z0 = x0.cross(&y0).normalize();
 
@@ -262,7 +274,9 @@ pub fn iso3_from_xyo(x0: &UnitVec3, y: &UnitVec3, origin: &Point<f64, 3>) -> Iso
 }
 
 pub fn iso2_from_basis(basis: &[SVector<f64, 2>; 2], origin: &Point<f64, 2>) -> Iso2 {
-    let b0 = basis[0].normalize();
+    let b0 = basis[0]
+        .try_normalize(1e-10)
+        .expect("iso2_from_basis: the first basis vector is zero");
     let b1 = Rotation2::new(FRAC_PI_2) * b0;
     let rot_m = Matrix2::from_columns(&[b0, b1]);
     let r = UnitComplex::from_matrix(&rot_m);
